@@ -607,12 +607,13 @@ def run(ctx):
         # a terminator left in the stream for the next member (consume=False: parse does not give back what was built, the schema
         # must still describe what parse does), at top level, in regions at offset 0 and behind headers
         GBs = ["name", "GreedyBytes"]
-        record = ["Struct", [["name", ["NullTerminated", GBs, tag(b"\x00"), False, False, True]], ["sep", B], ["tail", GBs]]]
-        short = ["Struct", [["name", ["NullTerminated", GBs, tag(b"\x00"), False, False, True]], ["sep", B]]]
-        for rr in (record, ["Struct", [["rec", ["FixedSized", 12, record]], ["after", B]]], ["Struct", [["hdr", ["name", "Int16ub"]], ["rec", ["Prefixed", B, record, False]], ["crc", B]]],
-                   ["Struct", [["magic", ["Const", tag(b"RIFF"), None]], ["rec", ["FixedSized", 13, record]], ["end", B]]], ["Struct", [["h", B], ["a", ["Prefixed", B, short, False]], ["b", ["Prefixed", B, short, False]]]]):
-            for _ in range(ctx.pick(4, 20)):
-                run_recipe(ctx, rng, rr, asymmetric_ok=True)
+        for incl in (False, True):          # (the terminator kept in the value as well as left in the stream: include and consume are independent options)
+            record = ["Struct", [["name", ["NullTerminated", GBs, tag(b"\x00"), incl, False, True]], ["sep", B], ["tail", GBs]]]
+            short = ["Struct", [["name", ["NullTerminated", GBs, tag(b"\x00"), incl, False, True]], ["sep", B]]]
+            for rr in (record, ["Struct", [["rec", ["FixedSized", 12, record]], ["after", B]]], ["Struct", [["hdr", ["name", "Int16ub"]], ["rec", ["Prefixed", B, record, False]], ["crc", B]]],
+                       ["Struct", [["magic", ["Const", tag(b"RIFF"), None]], ["rec", ["FixedSized", 13, record]], ["end", B]]], ["Struct", [["h", B], ["a", ["Prefixed", B, short, False]], ["b", ["Prefixed", B, short, False]]]]):
+                for _ in range(ctx.pick(4, 20)):
+                    run_recipe(ctx, rng, rr, asymmetric_ok=True)
         # one Enum object shared by two formats that are exported one after the other (what the first export leaves behind in the
         # object must not change the second schema)
         import construct as C
